@@ -429,9 +429,9 @@ def run_server(loop: steploop.StepLoop, plan: dict) -> dict:
             total = content.total_bytes
             try:
                 buffered = len(content.read_nowait(-1))
-            except Exception:  # noqa: BLE001
-                buffered = 0
-            x.rec("srv", s="413", n=cap(total), k=cap(total - buffered))
+            except Exception:  # noqa: BLE001  (the payload carries an error: read_nowait raises it)
+                buffered = getattr(content, "_size", None)
+            x.rec("srv", s="413", n=cap(total), k=(cap(total - buffered) if isinstance(buffered, int) else -1))
         except Exception as exc:  # noqa: BLE001
             x.in_read = True
             x.rec_err(exc, "srv")
